@@ -218,6 +218,43 @@ def run_data(desc, ctx):
                 if k == 0:
                     ctx.case("%s|n%d|%s" % (axis, min(len(labels), 4), "+".join(sorted(bcls)) or "none"),
                              len(labels) >= 2 and bool(bcls), {"inputs": gen.ds_summary(ds), "axis": axis, "labels": labels[:6]})
+        # the same partition under a -d / -tod selection (the buckets are those of the times that remain)
+        from vmon.props import c03 as _c03
+        sel = {}
+        for _try in range(6):
+            o_, _cl = _c03.gen_opts(rng, ds)
+            o_ = {k_: v_ for k_, v_ in o_.items() if k_ in ("dates", "tods")}
+            if o_:
+                t_, l_, s_ = refmodel.common_dims(ds, o_)
+                if t_ and l_ and s_ and len(t_) < len(times):
+                    sel = o_
+                    break
+        if sel:
+            ctx.count("selection_partition_cases")
+            data2 = vutil.build_data(paths, None, sel)
+            for axis in rng.sample(["year", "month", "week", "day", "timeofday", "dayofyear", "dayofmonth", "monthofyear", "time"], 4):
+                vax = vutil.vaxis(axis)
+                for k in range(F):
+                    ref = refmodel.slices(ds, k, fields, axis, sel)
+                    if data2.get_axis_size(vax) != len(ref):
+                        ctx.violation("slice-count-under-selection|%s" % axis, "%s -x %s: %d slices, calendar gives %d"
+                                      % (vutil.opts_to_argv(sel), axis, data2.get_axis_size(vax), len(ref)), case)
+                        break
+                    for idx in range(len(ref)):
+                        try:
+                            go, gf = data2.get_scores([vutil.vfield(("obs",)), vutil.vfield(("fcst",))], k, vax, idx)
+                        except SystemExit:
+                            break
+                        got = sorted(zip([float(x) for x in go], [float(x) for x in gf]))
+                        want = sorted((float(c_[0]), float(c_[1])) for c_ in ref[idx][1])
+                        if got and got[0][0] != got[0][0] and not want:
+                            continue
+                        if len(got) != len(want) or any(not (vutil.num_equal(a_[0], b_[0], 1e-6, 1e-9) and vutil.num_equal(a_[1], b_[1], 1e-6, 1e-9))
+                                                        for a_, b_ in zip(got, want)):
+                            ctx.violation("slice-content-under-selection|%s" % axis, "%s -x %s slice %d (%s) input %d: %d cases %s, calendar "
+                                          "bucket holds %d cases %s" % (vutil.opts_to_argv(sel), axis, idx, ref[idx][0], k, len(got), got[:4],
+                                                                        len(want), want[:4]), case)
+                            break
         # csv: counts and descriptors
         for axis in rng.sample(refmodel.ALL_AXES, 5):
             cm = rng.choice(["mae", "obs", "fcst"])
